@@ -131,13 +131,13 @@ thread_local! {
 pub fn install_panic_hook() {
     std::panic::set_hook(Box::new(|info| {
         let loc = info.location().map(|l| format!("{}:{}", l.file(), l.line())).unwrap_or_default();
-        LAST_PANIC_LOCATION.with(|l| *l.borrow_mut() = loc);
+        let _ = LAST_PANIC_LOCATION.try_with(|l| *l.borrow_mut() = loc);
     }));
 }
 
 pub fn payload_to_string(e: Box<dyn std::any::Any + Send>) -> String {
     let msg = e.downcast_ref::<String>().cloned().or_else(|| e.downcast_ref::<&str>().map(|s| s.to_string())).unwrap_or_else(|| "<non-string panic payload>".into());
-    let loc = LAST_PANIC_LOCATION.with(|l| l.borrow().clone());
+    let loc = LAST_PANIC_LOCATION.try_with(|l| l.borrow().clone()).unwrap_or_default();
     format!("{} @{}", msg, loc)
 }
 
